@@ -299,7 +299,15 @@ class Skel(AbstractValue):
         return False if other is None else self is other
 
     def abs_len(self, interp):
-        return AbsInt('len(skel)')
+        # the length of a piece of output text, identified by the document values it is made of
+        labs = []
+        for p_ in self.parts:
+            v = p_.value if isinstance(p_, Hole) else None
+            if isinstance(v, Taint):
+                labs.append(v.label)
+            elif isinstance(v, Skel):
+                labs.extend(v.abs_len(interp).tag[1])
+        return AbsInt(('len(skel)', tuple(sorted(labs))))
 
 
 def _hole_name(v):
